@@ -162,6 +162,8 @@ pub struct Opts {
     pub modes: bool,         // MODE line (incl. async)
     pub max_ops: u64,
     pub namings: &'static [&'static str],
+    pub foreign: bool,       // near-miss foreign files in the directory (C14)
+    pub exist: bool,         // existing_log_files observations (C16)
 }
 
 fn cfg_line(rot: &Option<String>, append: bool, cap: Option<u64>, symlink: bool, has_suffix: bool) -> String {
@@ -214,6 +216,18 @@ pub fn gen_hist(o: &Opts, r: &mut Rng, k: u64, tier: &str) -> Vec<String> {
     let symlink = r.chance(1, 4);
     let mut append = o.restarts > 0 && r.chance(1, 2);
     c.push(format!("CFG {}", cfg_line(&rot, append, cap, symlink, has_suffix)));
+    if o.foreign {
+        let sp = crate::props::flw::parse_spec(&crate::util::tokens(&c[1])[1..]);
+        let numbers = naming.starts_with("num");
+        for (i, n) in crate::props::names::near_misses(r, &sp, numbers).into_iter().enumerate() {
+            c.push(format!("FOREIGN {} {}", hexs(&n), hexs(&format!("foreign content {i}\n"))));
+        }
+        if r.chance(1, 3) {
+            // a sub-directory named like a rotated file
+            let fixed = crate::props::names::fixed_part(&sp);
+            c.push(format!("FOREIGN {} -", hexs(&format!("{fixed}{}r00003.d/", if fixed.is_empty() { "" } else { "_" }))));
+        }
+    }
     let mut clock = Clock::new(r);
     let frozen = is_async;
     let nops = r.range(3, if tier == "thorough" { o.max_ops * 3 } else { o.max_ops });
@@ -278,6 +292,7 @@ pub fn gen_hist(o: &Opts, r: &mut Rng, k: u64, tier: &str) -> Vec<String> {
             if cap.is_none() && !is_async && r.chance(1, 3) {
                 c.push("READ".into());
                 if o.cleanup { c.push("SNAP".into()); }
+                if o.exist { c.push(format!("EXIST {} _", r.pick_s(&["p", "pc", "pcr", "r", "c"]))); c.push("LINK".into()); }
             }
         }
     }
@@ -291,6 +306,12 @@ pub fn gen_hist(o: &Opts, r: &mut Rng, k: u64, tier: &str) -> Vec<String> {
     c.push("PARTS".into());
     c.push("SNAP".into());
     c.push("LINK".into());
+    if o.exist {
+        for sel in ["p", "pc", "pcr", "c", "r"] { c.push(format!("EXIST {sel} _")); }
+        // a new logger on the same directory, asked before it has written anything
+        c.push(format!("RESTART {}", cfg_line(&rot, true, cap, symlink, has_suffix)));
+        for sel in ["p", "pcr"] { c.push(format!("EXIST {sel} _")); }
+    }
     if o.faults { c.push("ERRS".into()); }
     c.push("END".into());
     c
@@ -304,23 +325,34 @@ fn gen_with(o: Opts, tier: &str, seed: u64, quick: u64, thorough: u64) -> Vec<Ve
 const ALL: &[&str] = &["num", "numd", "ts", "tsd"];
 
 pub fn gen_c08(tier: &str, seed: u64) -> Vec<Vec<String>> {
-    gen_with(Opts { prop: "C08", size: true, age: false, force_rot: false, restarts: 1, cleanup: false, faults: false, ext: false, modes: true, max_ops: 40, namings: ALL }, tier, seed, 500, 8000)
+    gen_with(Opts { prop: "C08", size: true, age: false, force_rot: false, restarts: 1, cleanup: false, faults: false, ext: false, modes: true, max_ops: 40, namings: ALL, foreign: false, exist: false }, tier, seed, 500, 8000)
 }
 pub fn gen_c09(tier: &str, seed: u64) -> Vec<Vec<String>> {
-    gen_with(Opts { prop: "C09", size: false, age: true, force_rot: false, restarts: 1, cleanup: false, faults: false, ext: false, modes: false, max_ops: 40, namings: ALL }, tier, seed, 500, 8000)
+    gen_with(Opts { prop: "C09", size: false, age: true, force_rot: false, restarts: 1, cleanup: false, faults: false, ext: false, modes: false, max_ops: 40, namings: ALL, foreign: false, exist: false }, tier, seed, 500, 8000)
 }
 pub fn gen_c06(tier: &str, seed: u64) -> Vec<Vec<String>> {
-    gen_with(Opts { prop: "C06", size: true, age: true, force_rot: true, restarts: 4, cleanup: false, faults: false, ext: false, modes: false, max_ops: 40, namings: ALL }, tier, seed, 500, 6000)
+    gen_with(Opts { prop: "C06", size: true, age: true, force_rot: true, restarts: 4, cleanup: false, faults: false, ext: false, modes: false, max_ops: 40, namings: ALL, foreign: false, exist: false }, tier, seed, 500, 6000)
 }
 pub fn gen_c07(tier: &str, seed: u64) -> Vec<Vec<String>> {
-    gen_with(Opts { prop: "C07", size: true, age: true, force_rot: true, restarts: 2, cleanup: true, faults: false, ext: false, modes: false, max_ops: 40, namings: ALL }, tier, seed, 500, 6000)
+    gen_with(Opts { prop: "C07", size: true, age: true, force_rot: true, restarts: 2, cleanup: true, faults: false, ext: false, modes: false, max_ops: 40, namings: ALL, foreign: false, exist: false }, tier, seed, 500, 6000)
 }
 pub fn gen_c15(tier: &str, seed: u64) -> Vec<Vec<String>> {
-    gen_with(Opts { prop: "C15", size: true, age: false, force_rot: true, restarts: 0, cleanup: false, faults: false, ext: false, modes: true, max_ops: 40, namings: ALL }, tier, seed, 500, 6000)
+    gen_with(Opts { prop: "C15", size: true, age: false, force_rot: true, restarts: 0, cleanup: false, faults: false, ext: false, modes: true, max_ops: 40, namings: ALL, foreign: false, exist: false }, tier, seed, 500, 6000)
 }
 pub fn gen_c18(tier: &str, seed: u64) -> Vec<Vec<String>> {
-    gen_with(Opts { prop: "C18", size: true, age: false, force_rot: true, restarts: 0, cleanup: false, faults: false, ext: true, modes: false, max_ops: 40, namings: &["num", "ts"] }, tier, seed, 500, 6000)
+    gen_with(Opts { prop: "C18", size: true, age: false, force_rot: true, restarts: 0, cleanup: false, faults: false, ext: true, modes: false, max_ops: 40, namings: &["num", "ts"], foreign: false, exist: false }, tier, seed, 500, 6000)
 }
 pub fn gen_c19(tier: &str, seed: u64) -> Vec<Vec<String>> {
-    gen_with(Opts { prop: "C19", size: true, age: true, force_rot: true, restarts: 0, cleanup: true, faults: true, ext: false, modes: false, max_ops: 40, namings: ALL }, tier, seed, 500, 6000)
+    gen_with(Opts { prop: "C19", size: true, age: true, force_rot: true, restarts: 0, cleanup: true, faults: true, ext: false, modes: false, max_ops: 40, namings: ALL, foreign: false, exist: false }, tier, seed, 500, 6000)
+}
+
+pub fn gen_c14(tier: &str, seed: u64) -> Vec<Vec<String>> {
+    let mut v = gen_with(Opts { prop: "C14", size: true, age: true, force_rot: true, restarts: 2, cleanup: true, faults: false, ext: false, modes: false, max_ops: 40, namings: ALL, foreign: true, exist: false }, tier, seed, 400, 5000);
+    v.extend(crate::props::names::gen_names_cases("C14", tier, seed));
+    v
+}
+pub fn gen_c16(tier: &str, seed: u64) -> Vec<Vec<String>> {
+    let mut v = gen_with(Opts { prop: "C16", size: true, age: true, force_rot: true, restarts: 2, cleanup: true, faults: false, ext: false, modes: false, max_ops: 30, namings: ALL, foreign: false, exist: true }, tier, seed, 400, 5000);
+    v.extend(crate::props::names::gen_names_cases("C16", tier, seed));
+    v
 }
